@@ -1,0 +1,65 @@
+//go:build verif
+
+package dirreader
+
+import (
+	"context"
+	"io"
+	"io/fs"
+	"os"
+
+	"github.com/fsnotify/fsnotify"
+)
+
+// VerifFile is the exported twin of statReadSeekCloser.
+type VerifFile interface {
+	Stat() (fs.FileInfo, error)
+	io.ReadSeekCloser
+}
+
+// VerifFS is the exported twin of fileSystem.
+type VerifFS interface {
+	Open(filePath string) (VerifFile, error)
+}
+
+type verifFSAdapter struct{ fs VerifFS }
+
+func (o *verifFSAdapter) Open(filePath string) (statReadSeekCloser, error) {
+	return o.fs.Open(filePath)
+}
+
+type verifWatcher struct{ events <-chan fsnotify.Event }
+
+func (o *verifWatcher) Events() <-chan fsnotify.Event { return o.events }
+
+func (o *verifWatcher) Close() error { return nil }
+
+// VerifSortLogNamesOldToNew exposes sortLogNamesOldToNew.
+func VerifSortLogNamesOldToNew(dirEntries []os.DirEntry) []string {
+	return sortLogNamesOldToNew(dirEntries)
+}
+
+// VerifStartLogDirReader starts a LogDirReader exactly as StartLogDirReader
+// does, but over the provided file system, directory listing and event
+// channel instead of the operating system's.
+func VerifStartLogDirReader(
+	ctx context.Context,
+	dirPath string,
+	dirEntries []os.DirEntry,
+	vfs VerifFS,
+	events <-chan fsnotify.Event,
+) *LogDirReader {
+	r := &LogDirReader{
+		dirPath:       dirPath,
+		initFileNames: sortLogNamesOldToNew(dirEntries),
+		watcher:       &verifWatcher{events: events},
+		fs:            &verifFSAdapter{fs: vfs},
+		lines:         make(chan string),
+		initFilesDone: make(chan struct{}),
+		done:          make(chan struct{}),
+	}
+
+	go r.loop(ctx)
+
+	return r
+}
